@@ -19,7 +19,7 @@ import finam as fm
 from .. import common
 from ..fmutil import T, ad, err_class
 
-MODULES = ["Validate"]
+MODULES = ["Validate", "ValidateLemmas"]
 GEN_OBLIGATIONS = ["caching_push_based", "push_based_adapters_are_caching", "passthrough_flags", "slot_flags",
                    "no_adapter_needs_pull", "delay_fixed_flags", "delay_to_push_flags", "delay_to_pull_flags",
                    "nobranch_names", "static_flags"]
@@ -455,9 +455,12 @@ def oracle(case, impl):
     if clauses and impl["events"] != 0:
         return ("rejection must come before any info/data exchange", {"events": impl["first_events"]})
     if impl["error"] is None and not has_open_end(case):
-        if impl["links"] != impl["created"] or impl["links"] != created_links(case):
+        # links made by `>>` in the trees that hold a slot of a listed component (recorded while building)
+        want = created_links(case)
+        made = [l for l in impl["created"] if l in want]
+        if impl["links"] != made or made != want:
             return ("metadata['links'] must be exactly the links that were created",
-                    {"reported": impl["links"], "created": impl["created"]})
+                    {"reported": impl["links"], "created": made})
     return None
 
 
@@ -565,7 +568,7 @@ def run(ctx, res):
     res.rule = RULE_TEXT
     res.assumptions = ["adapter kinds are those of finam.adapters plus two harness adapters (marker-only no-branch, "
                        "push-based without marker); no adapter needs pull (generated obligation no_adapter_needs_pull)"]
-    cases = corpus() + gen_cases(ctx.rng, ctx.n(700, 9000))
+    cases = corpus() + gen_cases(ctx.rng, ctx.n(2500, 40000))
     check_cases(cases, res)
 
 
